@@ -80,7 +80,9 @@ func TestExprSyntaxVersusUnsupported(t *testing.T) {
 		"a LIKE 'x%'":                          "unsupported",
 		"a NOT LIKE 'x%'":                      "unsupported",
 		"a ILIKE 'x'":                          "unsupported",
-		"a BETWEEN 1 AND 2":                    "unsupported",
+		"a BETWEEN 1 AND 2":                    "ok",
+		"a BETWEEN 1":                          "syntax",
+		"a BETWEEN SYMMETRIC 2 AND 1":          "unsupported",
 		"a IS TRUE":                            "unsupported",
 		"a IS NOT FALSE":                       "unsupported",
 		"a IS DISTINCT FROM b":                 "unsupported",
